@@ -37,6 +37,7 @@ VARIANTS = {
     'cutmacro': 'parser',     # text ends inside a MACRO body
     'empty': 'parser',        # no module at all in the file
     'dupsym': 'symtab',       # duplicate symbol
+    'dupsymfwd': 'symtab',    # duplicate symbol whose first definition is still waiting for a type declared further down
     'unkparent': 'symtab',    # OID parent neither defined nor imported
     'badref': 'codegen',      # parent imported from a module that does not define it
     'oidcycle': 'codegen',    # circular OID definition
@@ -92,6 +93,11 @@ def defined_oids(spec, allspecs):
         dr = module_oid(allspecs[d], allspecs)
         if dr is not None:
             out.append(dr + (7000 + spec['arc'] % 1000,))
+    if spec.get('foreign_ent'):
+        out.append(ENTERPRISES + (spec['foreign_ent'],))
+    if spec.get('zero_arc'):
+        out.append(r + (0,))
+        out.append(r + (0, 7))
     if spec.get('oiddefval') and not spec.get('smiv1'):
         out.append(r + (60,))
     if enum_source(spec, allspecs):
@@ -229,6 +235,12 @@ def render(spec, allspecs=None):
         if v == 'forbidden' and i == 0:
             lines.append('%sBad OBJECT IDENTIFIER ::= { FALSE 1 }' % sym(name))
         lines.append('')
+    if spec.get('foreign_ent'):
+        # a node under another vendor's enterprise number, declared after the module's own root (partner objects)
+        lines += ['%sPartner OBJECT IDENTIFIER ::= { enterprises %d }' % (sym(name), spec['foreign_ent']), '']
+    if spec.get('zero_arc'):
+        # notifications conventionally hang off a zero arc
+        lines += ['%sEvents OBJECT IDENTIFIER ::= { %s 0 }' % (sym(name), me), '%sEvent7 OBJECT IDENTIFIER ::= { %sEvents 7 }' % (sym(name), sym(name)), '']
     if spec.get('oiddefval') and not spec.get('smiv1'):
         tgt = root_sym(imps[0]) if imps and imps[0] != name else 'enterprises'
         if dd:
@@ -260,6 +272,12 @@ def render(spec, allspecs=None):
         lines.append({'syntax': '%sx OBJECT IDENTIFIER { %s 1 }' % (me, me), 'lex': '@', 'forbidden': 'x OBJECT IDENTIFIER ::= { FALSE 1 }'}[v])
     if v == 'dupsym':
         lines.append('%s OBJECT IDENTIFIER ::= { enterprises 424242 }' % me)
+    if v == 'dupsymfwd':
+        acc3, st3 = ('ACCESS', 'mandatory') if spec.get('smiv1') else ('MAX-ACCESS', 'current')
+        for _k in range(2):
+            lines += ['%sTwin OBJECT-TYPE' % sym(name), '    SYNTAX %sLaterType' % cap(name), '    %s read-only' % acc3, '    STATUS %s' % st3,
+                      '    DESCRIPTION "defined twice; its type is declared further down"', '    ::= { %s 80 }' % me, '']
+        lines += ['%sLaterType ::= INTEGER (0..7)' % cap(name), '']
     if spec.get('compliance') and not spec.get('smiv1'):
         grp = '%sGroup' % sym(name)
         if objnames:
@@ -356,6 +374,10 @@ def gen_modules(rng, n, cycles=True, defects=0.0, compliance=0.3, identity=0.7, 
                 spec['defval_dep'] = rng.choice(others)
                 if rng.random() < 0.4:
                     spec['defval_sym'] = sym(spec['defval_dep']) + 'NoSuchNode'
+        if rng.random() < 0.12:
+            spec['foreign_ent'] = rng.choice([100000, 9, 99990, 1000001])
+        if rng.random() < 0.12:
+            spec['zero_arc'] = True
         if shadow and rng.random() < shadow and not spec.get('smiv1'):
             # the only symbol taken from this module carries the name of a textual convention that every module also
             # gets from SNMPv2-TC: the module is named in IMPORTS all the same
